@@ -4,10 +4,13 @@ import random
 import common
 
 TITLE = 'A session with four conforming clients always runs to completion'
-LEAN_TARGETS = ['BridgeVerif.Props.C09']
+LEAN_TARGETS = ['BridgeVerif.Props.C09', 'BridgeVerif.Translated.ThreadsSeatA']
+AUDIT_PROPS = ['C09', 'Translated.ThreadsSeatA']
 REQUIRED = ['session_disciplined', 'canonical_run_terminates', 'no_lost_wakeup', 'session_always_completes',
             'runs_are_bounded', 'never_deadlocks', 'end_of_session_is_last', 'log_is_opened_written_closed',
-            'ready_messages_pass_the_server_check', 'seat_thread_follows_its_queue']
+            'ready_messages_pass_the_server_check', 'seat_thread_follows_its_queue',
+            'Translated.ThreadsSeatA.seat_check_message_translated', 'Translated.ThreadsSeatA.seat_deal_translated',
+            'Translated.ThreadsSeatA.seat_bidding_translated']
 SHARDS = {'quick': 4, 'thorough': 16}
 WANT = {'completion', 'ops'}
 RULE = ('sessions of 1-3 boards (random legal auctions incl. passed-out boards, random play incl. revokes, both card '
@@ -24,6 +27,7 @@ THREADS = ['main'] + [f'seat:client-{p}' for p in 'NESW'] + [f'client-{p}' for p
 TRUSTED = ['primitive semantics assumed by the scheduler and by the model: Queue = unbounded FIFO with blocking get; '
            'stream socket = reliable FIFO whose send never blocks; threading.Barrier(n) releases the k-th wait when all n '
            'parties made their k-th call; time.sleep is a yield; the OS eventually runs some enabled thread',
+           'the thread code as translated (Generated/PyCoreThreads.lean): desugar_threads.py (externals declared by name, every operation on them a call on the world object) + translate_py.py + the MiniPy semantics, validated on every run by executing the translated program next to the real threads of every session',
            'the session model (Model/Session.lean) is hand-written; its agreement with the real threads is tested, '
            'operation by operation, on the sessions of this run']
 ASSUMPTIONS = ['in-memory network instead of TCP (no partial sendall, no RST, no accept backlog limit)',
